@@ -9,15 +9,20 @@ mod seams;
 #[path = "../../../sim/seqsim/src/world.rs"]
 mod world;
 
+#[path = "../../../sim/seqsim/src/fam.rs"]
+mod fam;
+
 mod common;
 mod s14;
+mod s15;
+mod s16;
 mod sched;
 
 use engine::{BatchOpts, Prop};
 use serde_json::json;
 
 fn all_props() -> Vec<&'static dyn Prop> {
-    vec![&s14::C14]
+    vec![&s14::C14, &s15::C15, &s16::C16]
 }
 
 fn find(id: &str) -> &'static dyn Prop {
